@@ -156,7 +156,7 @@ Definition macro_heads : list string :=
 Definition regop_of (G : denv) (e : sexp) : option regop :=
   match e with
   | SVar x => match lookup_b x G with Some (BOp r) => Some r | None => Some (RParam x) | _ => None end
-  | SAddr x => match lookup_b x G with Some (BOp r) => Some r | _ => None end
+  | SAddr x => match lookup_b x G with Some (BOp r) => Some r | None => Some (RParam x) | _ => None end
   | _ => None
   end.
 
